@@ -471,7 +471,9 @@ impl<K: Hash + Eq, V, RH: BuildHasher, FH: BuildHasher, GH: BuildHasher> Cache<K
         // frequently used list
         if self.ghost.contains(&k) {
             return if recent_len + freq_len >= self.size {
-                let ent = if recent_len > self.recent_size {
+                // take the victim from the recent queue if it is over its quota, otherwise from
+                // the frequent queue; fall back to whichever queue is not empty
+                let ent = if recent_len > 0 && (recent_len > self.recent_size || freq_len == 0) {
                     self.recent.remove_lru_in().unwrap()
                 } else {
                     self.frequent.remove_lru_in().unwrap()
@@ -540,7 +542,7 @@ impl<K: Hash + Eq, V, RH: BuildHasher, FH: BuildHasher, GH: BuildHasher> Cache<K
         // LRU. Then, put the removed entry to the front of the ghost LRU,
         // if ghost LRU is also full, the cache will evict the less recent used entry of
         // ghost LRU.
-        let ent = if recent_len >= self.recent_size {
+        let ent = if recent_len > 0 && (recent_len >= self.recent_size || freq_len == 0) {
             self.recent.remove_lru_in().unwrap()
         } else {
             self.frequent.remove_lru_in().unwrap()
